@@ -81,3 +81,6 @@ for cls, extra in (("formulae.terms.variable.Variable", {}), ("formulae.terms.ca
                           f"{M} == old({M})"])
 
 FUNCTIONS = ["formulae.terms.variable.Variable.eval_new_data_categoric", "formulae.terms.call.Call.eval_new_data_categoric"]
+
+
+ASSUMPTIONS = ['pandas assumed: pd.Categorical(x, categories=L).codes[r] is the index of x[r] in L or -1; set(x) is the set of row values', "the global formulae.config.config object satisfies Config's invariant (proved in config_c)", 'numpy fancy row indexing M[idx] allocates a fresh array; np.copy allocates']
